@@ -277,6 +277,10 @@ def inline_program(j, config):
                     term["noinline"] = True
         if not changed:
             break
+    # closures handed to an inlined NOVEL function and called there (`retry(|| stream.read(..))` for a macro turned into a generic
+    # function): the call of the closure parameter is now a call of a statically known closure inside its own defining function
+    inlined_closures = _inline_closure_calls(j, by_id, novel, rep)
+    bodies = j["bodies"]
     # a private novel helper whose every static call site was inlined is only reachable through its callers: drop it
     still_called = set()
     for b in bodies:
@@ -297,6 +301,84 @@ def inline_program(j, config):
         j["bodies"] = [b for b in bodies if b["id"] not in drop]
         rep["dropped"] = sorted(drop)
     return rep
+
+
+_CLOSURE_CALL = re.compile(r"ops::(function::)?Fn(Mut|Once)?::call(_mut|_once)?$")
+
+
+def _peel_ty(types, i):
+    t = types[i]
+    while t["k"] in ("ref", "ptr") and isinstance(t.get("ty"), int):
+        t = types[t["ty"]]
+    return t
+
+
+def _inline_closure_calls(j, by_id, novel, rep):
+    types = j["types"]
+    done = {}
+    for b in j["bodies"]:
+        if b["kind"] == "Promoted":
+            continue
+        bi = 0
+        while bi < len(b["blocks"]):
+            blk = b["blocks"][bi]
+            bi += 1
+            term = blk["term"]
+            if blk.get("cleanup") or term.get("k") != "call" or blk.get("inl") not in novel:
+                continue
+            if not _CLOSURE_CALL.search(term.get("callee") or "") or not term.get("callee_args") or len(term["args"]) != 2:
+                continue
+            ct = _peel_ty(types, term["callee_args"][0])
+            if ct["k"] != "closure" or ct.get("def") not in by_id:
+                continue
+            clo = by_id[ct["def"]]
+            # the closure must be one defined in this very function (its types are then already in this function's terms)
+            root = (b.get("root") or b["id"]) if b["kind"] == "Closure" else b["id"]
+            if clo.get("root") != root:
+                continue
+            a0, a1 = term["args"]
+            if a0.get("k") not in ("move", "copy") or types[clo["locals"][1]["ty"]]["s"] != types[term["arg_tys"][0]]["s"]:
+                continue
+            n_params = clo["arg_count"] - 1
+            if n_params == 0:
+                fields = []
+            elif a1.get("k") in ("move", "copy") and "p" not in a1["pl"]:
+                fields = [{"k": "move", "pl": {"l": a1["pl"]["l"], "p": [{"f": i, "name": str(i)}]}} for i in range(n_params)]
+            else:
+                continue
+            saved = term["args"]
+            term["args"] = [a0] + fields
+            n0 = len(b["blocks"])
+            if _inline_one(b, bi - 1, clo, types):
+                for nb in b["blocks"][n0:]:
+                    nb["owner"] = blk.get("owner")
+                    nb["stack"] = tuple(blk.get("stack", ())) + (clo["id"],)
+                    nb["inl_closure"] = clo["id"]
+                rep["inlined_sites"] += 1
+                done.setdefault(clo["id"], set()).add(b["id"])
+            else:
+                term["args"] = saved
+    # a closure all of whose uses are now inlined calls is no longer a separate piece of code: drop its stand-alone body
+    dropped = []
+    for cid, users in done.items():
+        cty = None
+        escapes = False
+        for b in j["bodies"]:
+            for blk in b["blocks"]:
+                tm = blk["term"]
+                if tm.get("k") != "call":
+                    continue
+                for ai, a in enumerate(tm.get("args", [])):
+                    if a.get("k") in ("move", "copy") and ai < len(tm.get("arg_tys", [])):
+                        pt = _peel_ty(types, tm["arg_tys"][ai])
+                        if pt["k"] == "closure" and pt.get("def") == cid:
+                            escapes = True
+        if not escapes:
+            dropped.append(cid)
+    if dropped:
+        j["bodies"] = [b for b in j["bodies"] if b["id"] not in dropped]
+        rep.setdefault("dropped_closures", []).extend(sorted(dropped))
+    return done
 
 
 def _used_as_value(bodies, fn_id):
